@@ -42,7 +42,7 @@ def templates(tier, seed=0):
         n = len(srcs); assume = (lambda n: (lambda v: [v['h0'] >= 0, v['h0'] < n]))(n)
         head = ['s := @h0@'] + sel_ladder('src', 's', srcs)
         ts.append({'name': 'list-decl-%d' % idx, 'src': '\n'.join(head + ['%s := src' % pat] + prints + ['print(src)']) + '\n', 'assume': assume})
-        if tier == 'thorough' or idx % 2 == 0:
+        if True:
             pre = ['%s := 0' % x for x in ns]
             ts.append({'name': 'list-assign-%d' % idx, 'src': '\n'.join(head + pre + ['%s = src' % pat] + prints) + '\n', 'assume': assume})
         if tier == 'thorough' or idx % 3 == 0:
@@ -54,7 +54,7 @@ def templates(tier, seed=0):
         n = len(OBJ_SOURCES); assume = (lambda n: (lambda v: [v['h0'] >= 0, v['h0'] < n]))(n)
         head = ['s := @h0@'] + sel_ladder('src', 's', OBJ_SOURCES)
         ts.append({'name': 'obj-decl-%d' % idx, 'src': '\n'.join(head + ['%s := src' % pat] + prints + ['print(src)']) + '\n', 'assume': assume})
-        if tier == 'thorough' or idx % 2 == 1:
+        if True:
             pre = ['%s := 0' % x for x in ns]
             ts.append({'name': 'obj-assign-%d' % idx, 'src': '\n'.join(head + pre + ['%s = src' % pat] + prints) + '\n', 'assume': assume})
         if tier == 'thorough' or idx % 3 == 0:
